@@ -15,6 +15,10 @@ class ConsumerLoop:
 
 def _cone_pulls(prog, model, bi, a):
     """does awaiting `a` (a local coroutine) send the lease request (PullMessages) to a subscription actor?"""
+    if await_class(prog, bi, a) == "mpsc_send":
+        # the handle method was written (or spliced) into this body: the send of the lease request itself
+        sv = model.send_variant(bi, a)
+        return bool(sv and sv[1] and model.variant_info(*sv)[1])
     if await_class(prog, bi, a) != "local":
         return False
     cid = prog.body_of_type(bi.body, a.fut_ty)
